@@ -21,10 +21,12 @@
                   `arrive r o …`     — `[await make_toggle(name=key)]` done, worker spawned
                   `listed r`         — `Bookmark.LISTED`: `[await drop_toggle(resource_indexed)]`
   * worker (r,o)  `index`            — `await indexing.index_resource(...)` returned
-                  `indexFail`        — the cycle ended WITHOUT reaching `drop_toggle`: `index_resource`
-                                       (or anything before it) raised and the throttler swallowed it,
-                                       or the cycle was skipped by the throttler; the worker goes on
-                                       waiting for the next event and still holds its toggle
+                  `indexFail`        — the cycle ended without `index_resource` returning: it (or a filter
+                                       before it) raised and the throttler swallowed it, or the cycle was
+                                       skipped by the throttler, or the worker was cancelled inside it.
+                                       Since kopf 58a504d the per-object toggle is dropped all the same
+                                       (`finally:` / the throttled branch): the attempt counts, the object
+                                       is simply absent from the indices, as after a failed index function
                   `drop`             — `[await drop_toggle(resource_indexed)]`, enters `wait_for(True)`
                   `pass`             — `await operator_indexed.wait_for(True)` returned
                   `skip`             — the worker was started with `operator_indexed=None`: no wait
@@ -80,7 +82,7 @@ structure GState (R O : Type) where
   workers : R × O → Option Worker
   -- history variables (for the property only; no guard reads them)
   listing : List (R × O)          -- objects of indexed kinds that arrived before the kind's LISTED
-  indexedOnce : List (R × O)      -- objects whose `index_resource` completed at least once
+  indexedOnce : List (R × O)      -- objects whose indexing was attempted at least once (`index_resource` returned or failed)
   everOn : Bool                   -- somebody has observed the set to be on
   handled : Bool                  -- some worker has reached the handlers
   first : List R                  -- start-up kinds: indexed kinds of the batches begun before anybody saw the set on
@@ -215,7 +217,11 @@ def step (bug : Bug) (s : GState R O) : Label R O → Option (GState R O)
   | .indexFail r o =>
     match s.workers (r, o) with
     | some w =>
-      if w.pc = .queued then some (setPc s (r, o) w .idle) else none
+      if w.pc = .queued then
+        some { setPc s (r, o) w .idle with
+                 objTog := if w.hasToggle then sdel (r, o) s.objTog else s.objTog,
+                 indexedOnce := sadd (r, o) s.indexedOnce }
+      else none
     | none => none
   | .drop r o =>
     match s.workers (r, o) with
@@ -288,19 +294,11 @@ def ready1B (s : GState R O) : Bool :=
   s.first.all (fun r => decide (r ∈ s.listed)) &&
   s.listing.all (fun ro => !decide (ro.1 ∈ s.first) || decide (ro ∈ s.indexedOnce))
 
-/-- No toggle is stranded: nothing leaked, and every per-object toggle in the set belongs to a live
-    worker that is on its way to `drop_toggle` (its `index_resource` is running or has returned). -/
-def Healthy (s : GState R O) : Prop :=
-  s.leaked = [] ∧ s.leakedK = [] ∧
-  ∀ ro, ro ∈ s.objTog → ∃ w, s.workers ro = some w ∧ (w.pc = .queued ∨ w.pc = .indexed) ∧
-    w.gated = true ∧ w.hasToggle = true
+/-- No toggle is stranded: no per-object toggle outlived its worker, no per-kind toggle its watcher. -/
+def Healthy (s : GState R O) : Prop := s.leaked = [] ∧ s.leakedK = []
 
 /-- decidable form of `Healthy` (for examples) -/
-def healthyB (s : GState R O) : Bool :=
-  s.leaked.isEmpty && s.leakedK.isEmpty &&
-  s.objTog.all (fun ro => match s.workers ro with
-    | some w => (decide (w.pc = .queued) || decide (w.pc = .indexed)) && w.gated && w.hasToggle
-    | none => false)
+def healthyB (s : GState R O) : Bool := s.leaked.isEmpty && s.leakedK.isEmpty
 
 /-- the gate is open and every worker is past it -/
 def Open (s : GState R O) : Prop :=
